@@ -9,7 +9,7 @@ import os
 import unicodedata
 
 from ..common import Report, REPO, AnalysisError, src
-from ..match import match_expr, match_stmts, strip_doc, unify, parse_expr, canonical
+from ..match import match_expr, match_stmts, strip_doc, unify, parse_expr, canonical, inline_statement_helpers
 
 FILE = 'stdnum/util.py'
 
@@ -31,7 +31,7 @@ def derive_table(rep=None):
     tree, funcs, assigns = load_util()
     cand = None
     for name, n in assigns.items():
-        b = match_expr('dict(V_mk(E_table))', n.value)
+        b = match_expr('dict(V_mk(E_table))', n.value) or match_expr('str.maketrans(dict(V_mk(E_table)))', n.value)
         if b and isinstance(b['E_table'], ast.Name) and b['E_table'].id in assigns and isinstance(assigns[b['E_table'].id].value, ast.Dict):
             # the literal table bound to a module-level name first; nobody else may write that name
             tname = b['E_table'].id
@@ -83,7 +83,19 @@ def charmap():
     return out
 
 
-def check_pipeline(rep, funcs, mapname):
+def check_pipeline(rep, funcs, mapname, translate_table=None):
+    if translate_table is None:
+        translate_table = is_translate_table(mapname)
+    return _check_pipeline(rep, funcs, mapname, translate_table)
+
+
+def is_translate_table(mapname):
+    tree, funcs, assigns = load_util()
+    n = assigns.get(mapname)
+    return n is not None and match_expr('str.maketrans(dict(V_mk(E_table)))', n.value) is not None
+
+
+def _check_pipeline(rep, funcs, mapname, translate_table):
     """_clean_chars is a 1:1 order preserving map through the table; clean() is
     total-conversion -> map -> delete, with deletion last."""
     ok = True
@@ -91,7 +103,11 @@ def check_pipeline(rep, funcs, mapname):
     for fname, fn in funcs.items():
         body = strip_doc(fn.body)
         if len(body) == 1 and isinstance(body[0], ast.Return) and body[0].value is not None:
-            for p in ("''.join(%s.get(V_x, V_x) for V_x in V_n)" % mapname, "''.join([%s.get(V_x, V_x) for V_x in V_n])" % mapname):
+            pats = ["''.join(%s.get(V_x, V_x) for V_x in V_n)" % mapname, "''.join([%s.get(V_x, V_x) for V_x in V_n])" % mapname]
+            if translate_table:
+                # str.translate with str.maketrans(<the same dict>) maps every character through the table and keeps the others
+                pats.append('V_n.translate(%s)' % mapname)
+            for p in pats:
                 b = match_expr(p, body[0].value)
                 if b and fn.args.args and b['V_n'].id == fn.args.args[0].arg:
                     cc = fname
@@ -113,6 +129,7 @@ def check_pipeline(rep, funcs, mapname):
     fn = funcs['clean']
     num = fn.args.args[0].arg
     dele = fn.args.args[1].arg if len(fn.args.args) > 1 else None
+    tree_ = load_util()[0]
     # called without a second argument nothing is deleted: the callers that write clean(number) rely on it
     if dele and fn.args.defaults:
         d0 = fn.args.defaults[-1]
@@ -120,7 +137,25 @@ def check_pipeline(rep, funcs, mapname):
                   'clean() called without %s deletes %s: the default must be the empty string, callers of clean(number) expect only the look-alike mapping'
                   % (dele, src(d0)), what='clean(number, %s=\'\')' % dele)
     stage = 'raw'
-    body = strip_doc(fn.body)
+    # private helpers of one statement and try/else are read as the statements they stand for
+    body = inline_statement_helpers(tree_, fn, exclude=(cc,))
+    # `return ''.join(x for x in <map>(number) if ...)`: the mapping written inside the final expression is its own stage
+    if body and isinstance(body[-1], ast.Return) and body[-1].value is not None:
+        inner = [c for c in ast.walk(body[-1].value) if isinstance(c, ast.Call) and isinstance(c.func, ast.Name) and c.func.id == cc
+                 and len(c.args) == 1 and src(c.args[0]) == num]
+        if len(inner) == 1:
+            import copy
+            last = copy.deepcopy(body[-1])
+            for par in ast.walk(last):
+                for f_, v_ in ast.iter_fields(par):
+                    if isinstance(v_, ast.Call) and ast.dump(v_) == ast.dump(inner[0]):
+                        setattr(par, f_, ast.Name(id=num, ctx=ast.Load()))
+                    elif isinstance(v_, list):
+                        for i_, x_ in enumerate(v_):
+                            if isinstance(x_, ast.Call) and ast.dump(x_) == ast.dump(inner[0]):
+                                v_[i_] = ast.Name(id=num, ctx=ast.Load())
+            pre_ = ast.copy_location(ast.Assign(targets=[ast.Name(id=num, ctx=ast.Store())], value=inner[0]), body[-1])
+            body = body[:-1] + [ast.fix_missing_locations(pre_), ast.fix_missing_locations(last)]
     returned = False
     for st in body:
         where = '%s:%d clean' % (FILE, st.lineno)
